@@ -22,7 +22,16 @@ def main():
 
     logging.disable(logging.CRITICAL)
     mod = importlib.import_module("props." + a.prop.lower())
+    replay_clause = None
+    if a.replay:
+        # a replay file names the failing clause and the tier/seed of the run that found it; the
+        # check is re-executed with them and reports a violation iff that clause fails again
+        import json
+
+        blob = json.load(open(a.replay))
+        a.tier, seed, replay_clause = blob.get("tier", a.tier), blob.get("seed", seed), blob["clause"]
     ctx = engine.Ctx(a.prop.upper(), a.tier, seed, a.replay)
+    ctx.replay_clause = replay_clause
     try:
         mod.run(ctx)
         rc = ctx.finish()
